@@ -56,7 +56,7 @@ def _replay(beh) -> dict:
 
 def model_check(tier: str) -> dict:
     """TLC on the implementation-shaped model of the current code (all repair flags on)."""
-    cfg = "MC_QosFsm_fixed.cfg" if tier == "quick" else "MC_QosFsm_deep.cfg"
+    cfg = "MC_QosFsm_live.cfg" if tier == "quick" else "MC_QosFsm_deep.cfg"  # live = safety + Live + NoWriteAfterAnswer
     r = tlc.run_tlc("MC_QosFsm", cfg, workers=8 if tier == "quick" else 12, timeout=3000)
     return {"cfg": cfg, "ok": r.ok, "violated": r.violated, "states": r.distinct, "transitions": r.states,
             "depth": r.depth, "wall_s": round(r.wall_s, 1), "errors": r.errors[:3]}
